@@ -1,5 +1,6 @@
 (* C12 - executable model of Potassco::TheoryData (src/theory_data.cpp, potassco/theory_data.h),
-   after the repairs bac2265 (FuncData freed when setTerm refuses) and b553e6b.
+   after the repairs bac2265 (FuncData freed when setTerm refuses), b553e6b, c8d69a9 (symbol copied before
+   setTerm) and 7625ba8 (new element built before the old one is freed).
 
    Concrete state
      terms / elems : the two id-indexed RawStacks as sparse vectors: (size, association id -> cell);
@@ -114,15 +115,20 @@ Definition addTermNum (id n : Z) (s : st) : Z * st :=
   | Err e => (e, s)
   end.
 
+(* addTerm(id, const StringSpan&) after c8d69a9: char* buf = new char[..]; copy the name;
+   try { return setTerm(id) = TheoryTerm(buf); } catch (...) { delete [] buf; throw; }
+   - the copy is made BEFORE setTerm() frees the term being replaced (the name may be that term's own symbol) *)
 Definition addTermSym (id : Z) (b : list Z) (s : st) : Z * st :=
-  match setTerm id s with
-  | Ok s1 =>
-      let '(a, h) := halloc (OSym b) (hp s1) in
-      match mk_ptr a Theory_t_Symbol with
-      | Ok w => (0, twrite (set_hp s1 h) id w)
-      | Err e => (e, set_hp s1 h)
+  let '(a, h) := halloc (OSym b) (hp s) in
+  let s0 := set_hp s h in
+  let undo (e : Z) := match hfree K_SYM a (hp s0) with Ok h' => (e, set_hp s0 h') | Err e' => (e', s0) end in
+  match mk_ptr a Theory_t_Symbol with                      (* right operand first: TheoryTerm(buf) *)
+  | Ok w =>
+      match setTerm id s0 with
+      | Ok s1 => (0, twrite s1 id w)
+      | Err e => undo e
       end
-  | Err e => (e, s)
+  | Err e => undo e
   end.
 
 (* FuncData* f = newFunc(base, args); try { return setTerm(id) = TheoryTerm(f); } catch (...) { destroy(f); throw; } *)
@@ -142,15 +148,22 @@ Definition addTermComp (id base : Z) (args : list Z) (s : st) : Z * st :=
 Definition removeTermOp (id : Z) (s : st) : Z * st :=
   match removeTerm id s with Ok s1 => (0, s1) | Err e => (e, s) end.
 
+(* addElement after 7625ba8: push / redefinition check; TheoryElement* e = newElement(terms, cId);
+   DestroyT()(elems()[id]) (a null pointer - the id was not in use - is left alone); elems()[id] = e
+   - the new element is built BEFORE the old one is freed (terms may be the old element's own span) *)
 Definition addElement (id : Z) (ts : list Z) (c : Z) (s : st) : Z * st :=
   let prep : R st :=
     if negb (hasElement s id) then Ok (set_elems s (elems s) (Z.max (nelems s) (id + 1)))
     else if isNewElement s id then Err EC_REDEF_ELEM
-    else match hfree K_ELEM (eread s id) (hp s) with Ok h => Ok (set_hp s h) | Err e => Err e end in
+    else Ok s in
   match prep with
   | Ok s1 =>
       let '(a, h) := halloc (OElem ts (if c =? 0 then None else Some c)) (hp s1) in
-      (0, set_hp (set_elems s1 (aset (elems s1) id a) (nelems s1)) h)
+      let old := eread s1 id in
+      match (if old =? 0 then Ok h else hfree K_ELEM old h) with
+      | Ok h' => (0, set_hp (set_elems s1 (aset (elems s1) id a) (nelems s1)) h')
+      | Err e => (e, s)
+      end
   | Err e => (e, s)
   end.
 
